@@ -261,6 +261,7 @@ fn cmd_run(args: &[String]) -> i32 {
     let out = arg(args, "--out").expect("--out").to_string();
     let budget = arg(args, "--budget-s").map(|s| Duration::from_secs_f64(s.parse().unwrap()));
     let only_job = arg(args, "--only-job");
+    let only_match = arg(args, "--match");
     let known_path = arg(args, "--known").unwrap_or("/verif/known_findings.txt");
     let known = KnownFindings::load(known_path);
     let started = Instant::now();
@@ -294,6 +295,11 @@ fn cmd_run(args: &[String]) -> i32 {
     for (idx, job) in jobs.iter().enumerate() {
         if let Some(f) = only_job {
             if job.id != f {
+                continue;
+            }
+        }
+        if let Some(m) = only_match {
+            if !job.id.contains(m) {
                 continue;
             }
         }
